@@ -309,6 +309,9 @@ int main(void) {
 	if (g_mode != 4 && !g_use_tcp) { int fl = fcntl(g_sv[1], F_GETFL); fcntl(g_sv[1], F_SETFL, fl & ~O_NONBLOCK); }
 	if (sndbuf && g_mode == 2) { int v = (int)sndbuf; setsockopt(g_sv[0], SOL_SOCKET, SO_SNDBUF, &v, sizeof(v)); }
 
+	/* TP_TASK_F_CLOSE_ON_DESTROY: somebody else holds the same open file description (dup(), a forked child ...), so
+	 * closing the descriptor alone does not end its event registration */
+	if ((g_task_flags & 1) && g_mode != 4) (void)dup(g_sv[0]);
 	tp_settings_def(&s); s.threads_max = 2; s.flags = 0; s.tpt_on_start = on_start;
 	rc = tp_create(&s, &g_tp); if (rc) { fprintf(stderr, "tp_create rc=%d\n", rc); return 3; }
 	tp_threads_create(g_tp, 0);
